@@ -1906,6 +1906,10 @@ class InterLocalGitRemoteGitBranch(InterGitBranch):
     def _basic_push(self, overwrite, stop_revision, tag_selector=None):
         from .remote import parse_git_error
 
+        if overwrite is True:
+            overwrite = {"history", "tags"}
+        elif not overwrite:
+            overwrite = set()
         result = GitBranchPushResult()
         result.source_branch = self.source
         result.target_branch = self.target
@@ -1919,7 +1923,7 @@ class InterLocalGitRemoteGitBranch(InterGitBranch):
             else:
                 result.old_revid = self.target.lookup_foreign_revision_id(old_ref)
             new_ref = self.source.repository.lookup_bzr_revision_id(stop_revision)[0]
-            if not overwrite and remote_divergence(
+            if "history" not in overwrite and remote_divergence(
                 old_ref, new_ref, self.source.repository._git.object_store
             ):
                 raise errors.DivergedBranches(self.source, self.target)
